@@ -17,7 +17,7 @@ CLASS_POOL = [
     [0, 1], [1, 2, 3, 4], [3, 1, 2, 0], [0, 300, 7], list(range(2, 11)), [0, 2, 1, 3], [0, 3, 1, 2, 4],
 ]
 BAD_KINDS = ['rows', 'length', 'words', 'type_traces', 'type_data', 'float_data', 'first_range', 'neg_auto',
-             'lowmem', 'not_built', 'tpl_two_words', 'traces_1d', 'f16_traces', 'traces_3d']
+             'lowmem', 'not_built', 'tpl_two_words', 'traces_1d', 'f16_traces', 'traces_3d', 'str_traces']
 
 
 RULE = {
@@ -476,7 +476,7 @@ def generate_c11(seed, tier):
 def bad_applicable(bk, kind, first, auto):
     if bk in ('rows', 'type_traces', 'type_data'):
         return True
-    if bk in ('traces_1d', 'traces_3d'):
+    if bk in ('traces_1d', 'traces_3d', 'str_traces'):
         return kind != 'ttacc'
     if bk == 'f16_traces':
         # half-precision traces pass every Python-level check and are refused inside the compiled kernel call (numba has no float16 arrays)
@@ -643,6 +643,12 @@ def _bad_args(scn, bk, tr, da):
         return np.ascontiguousarray(tr[:, 0]), da
     if bk == 'f16_traces':
         return tr.astype('float16'), da
+    if bk == 'str_traces':
+        # right shape, but the samples cannot be converted to numbers (a text export with a 'n/a' cell): the batch passes every shape check
+        # and is refused only where the samples are first converted
+        st = tr.astype('U12')
+        st[(0, -1)[v % 2], (0, -1)[(v // 2) % 2]] = 'n/a'
+        return st, da
     if bk == 'traces_3d':
         return np.ascontiguousarray(tr[:, :, None]), da          # right row count and length, one dimension too many
     if bk == 'type_data':
